@@ -18,10 +18,10 @@ def updRids : List Effect → List Rid
 
 /-! ### what the plans emit -/
 
-theorem planIns_updRids (ts : TableSchema) (c : Nat) : ∀ (rows : List (List Val)) (v : View) (j : Nat),
-    updRids (planIns ts c v rows j).effs = []
-  | [], _, _ => rfl
-  | r :: rs, v, j => by
+theorem planIns_updRids (ts : TableSchema) (c : Nat) : ∀ (rows : List (List Val)) (pb : Option Probe) (v : View) (j : Nat),
+    updRids (planIns ts c pb v rows j).effs = []
+  | [], _, _, _ => rfl
+  | r :: rs, pb, v, j => by
     unfold planIns
     split
     · rfl
@@ -30,7 +30,7 @@ theorem planIns_updRids (ts : TableSchema) (c : Nat) : ∀ (rows : List (List Va
       · split
         · rfl
         · simp only [Plan.cons, updRids]
-          exact planIns_updRids ts c rs _ _
+          exact planIns_updRids ts c rs _ _ _
 
 theorem planDel_updRids (t : String) (p : Option (Nat × CmpOp × Val)) : ∀ (rs : List ARow),
     updRids (planDel t p rs).effs = []
@@ -42,11 +42,11 @@ theorem planDel_updRids (t : String) (p : Option (Nat × CmpOp × Val)) : ∀ (r
     · exact planDel_updRids t p rs
 
 theorem planUpd_effs (ts : TableSchema) (ci : Nat) (col : Col) (add : Bool) (x : Val) (p : Option (Nat × CmpOp × Val)) :
-    ∀ (rs : List ARow) (v : View),
-      (∀ e ∈ (planUpd ts ci col add x p v rs).effs, e.isIns = false) ∧
-      (updRids (planUpd ts ci col add x p v rs).effs).Sublist (rs.map (·.rid))
-  | [], _ => ⟨by simp [planUpd], by simp [planUpd, updRids]⟩
-  | r :: rs, v => by
+    ∀ (rs : List ARow) (pb : Option Probe) (v : View),
+      (∀ e ∈ (planUpd ts ci col add x p pb v rs).effs, Effect.isIns e = false) ∧
+      (updRids (planUpd ts ci col add x p pb v rs).effs).Sublist (rs.map (·.rid))
+  | [], _, _ => ⟨by simp [planUpd], by simp [planUpd, updRids]⟩
+  | r :: rs, pb, v => by
     unfold planUpd
     split
     · split
@@ -55,16 +55,24 @@ theorem planUpd_effs (ts : TableSchema) (ci : Nat) (col : Col) (add : Bool) (x :
         · exact ⟨by simp, by simp [updRids]⟩
         · split
           · exact ⟨by simp, by simp [updRids]⟩
-          · obtain ⟨h1, h2⟩ := planUpd_effs ts ci col add x p rs (v.apply (Effect.upd r.rid ci _))
-            refine ⟨?_, ?_⟩
-            · intro e he
-              simp only [Plan.cons, List.mem_cons] at he
-              rcases he with rfl | he
-              · rfl
-              · exact h1 e he
-            · simp only [Plan.cons, updRids, List.map_cons]
-              exact List.Sublist.cons_cons _ h2
-    · obtain ⟨h1, h2⟩ := planUpd_effs ts ci col add x p rs v
+          · split
+            · refine ⟨?_, ?_⟩
+              · intro e he
+                simp only [List.mem_singleton] at he
+                subst he; rfl
+              · simp only [updRids, List.map_cons]
+                exact List.Sublist.cons_cons _ (List.nil_sublist _)
+            · obtain ⟨h1, h2⟩ := planUpd_effs ts ci col add x p rs (Probe.step pb v (Effect.upd r.rid ci _))
+                (v.apply (Effect.upd r.rid ci _))
+              refine ⟨?_, ?_⟩
+              · intro e he
+                simp only [Plan.cons, List.mem_cons] at he
+                rcases he with rfl | he
+                · rfl
+                · exact h1 e he
+              · simp only [Plan.cons, updRids, List.map_cons]
+                exact List.Sublist.cons_cons _ h2
+    · obtain ⟨h1, h2⟩ := planUpd_effs ts ci col add x p rs pb v
       exact ⟨h1, by simp only [List.map_cons]; exact List.Sublist.cons _ h2⟩
 
 theorem sorted_rids_nodup (v : View) (h : SortedV v) : (v.map (·.rid)).Nodup := by
@@ -74,9 +82,9 @@ theorem sorted_rids_nodup (v : View) (h : SortedV v) : (v.map (·.rid)).Nodup :=
 
 /-- the effects of one statement planned against a view in row-id order: either no UPDATE effect at all, or no INSERT effect
     and UPDATE effects on pairwise different rows -/
-theorem planStmt_effs (cat : Catalog) (c j : Nat) (v : View) (hv : SortedV v) (st : Stmt) :
-    updRids (planStmt cat c j v st).effs = [] ∨
-    ((∀ e ∈ (planStmt cat c j v st).effs, e.isIns = false) ∧ (updRids (planStmt cat c j v st).effs).Nodup) := by
+theorem planStmt_effs (pb : Option Probe) (cat : Catalog) (c j : Nat) (v : View) (hv : SortedV v) (st : Stmt) :
+    updRids (planStmt pb cat c j v st).effs = [] ∨
+    ((∀ e ∈ (planStmt pb cat c j v st).effs, Effect.isIns e = false) ∧ (updRids (planStmt pb cat c j v st).effs).Nodup) := by
   cases st with
   | sel t p =>
     left
@@ -91,7 +99,7 @@ theorem planStmt_effs (cat : Catalog) (c j : Nat) (v : View) (hv : SortedV v) (s
     · rfl
     · split
       · rfl
-      · exact planIns_updRids _ _ _ _ _
+      · exact planIns_updRids _ _ _ _ _ _
   | upd t col add x p =>
     simp only [planStmt]
     split
@@ -101,7 +109,7 @@ theorem planStmt_effs (cat : Catalog) (c j : Nat) (v : View) (hv : SortedV v) (s
       · split
         · left; rfl
         · right
-          obtain ⟨h1, h2⟩ := planUpd_effs _ _ _ add x _ v v
+          obtain ⟨h1, h2⟩ := planUpd_effs _ _ _ add x _ v pb v
           exact ⟨h1, h2.nodup (sorted_rids_nodup v hv)⟩
   | del t p =>
     left
@@ -202,6 +210,37 @@ theorem tail_applyEffects_upd (P : Nat → Prop) (s : Snapshot) : ∀ (es : List
 
 /-! ### one autocommit statement -/
 
+theorem abortTxn_rows (σ : State) (tid : Nat) : (σ.abortTxn tid).rows = σ.rows := rfl
+
+theorem commitC_rows (σ : State) (tid : Nat) : (σ.commitC D0 tid).1.rows = σ.rows := by
+  unfold State.commitC
+  split
+  · split
+    · rfl
+    · exact commitTxn_rows σ tid
+  · exact commitTxn_rows σ tid
+
+theorem commitTxn_lastCommitted (σ : State) (tid : Nat) :
+    (σ.commitTxn tid).1.lastCommitted = σ.lastCommitted ∨ (σ.commitTxn tid).1.lastCommitted = tid := by
+  unfold State.commitTxn
+  split
+  · left; rfl
+  · split
+    · left; rfl
+    · show (if tid > σ.lastCommitted then tid else σ.lastCommitted) = _ ∨ (if tid > σ.lastCommitted then tid else σ.lastCommitted) = _
+      split
+      · right; rfl
+      · left; rfl
+
+theorem commitC_lastCommitted (σ : State) (tid : Nat) :
+    (σ.commitC D0 tid).1.lastCommitted = σ.lastCommitted ∨ (σ.commitC D0 tid).1.lastCommitted = tid := by
+  unfold State.commitC
+  split
+  · split
+    · left; rfl
+    · exact commitTxn_lastCommitted σ tid
+  · exact commitTxn_lastCommitted σ tid
+
 theorem sorted_view' (s : Snapshot) (rows : List Row) (h : rows.Pairwise (fun a b => ridLt a.rid b.rid)) :
     SortedV (view D0 s rows) := sorted_view s rows h
 
@@ -213,7 +252,7 @@ theorem auto_tail (σ : State) (α : Spec.State) (h : Rel σ α) (st : Stmt) (P 
   -- the rows are either untouched or the plan's effects applied to them
   have hrows : (step D0 σ (.auto st)).1.rows = σ.rows ∨
       ∃ s : Snapshot, (step D0 σ (.auto st)).1.rows =
-        applyEffects D0 s σ.rows (planStmt σ.cat σ.clock 0 (view D0 s σ.rows) st).effs := by
+        applyEffects D0 s σ.rows (planStmt none σ.cat σ.clock 0 (view D0 s σ.rows) st).effs := by
     simp only [step, stepCore]
     rw [stmt_none]
     have hb : (σ.beginTxn D0).1.rows = σ.rows := rfl
@@ -222,12 +261,13 @@ theorem auto_tail (σ : State) (α : Spec.State) (h : Rel σ α) (st : Stmt) (P 
       rfl
     · right
       refine ⟨(σ.beginTxn D0).1.snapOf (σ.beginTxn D0).2, ?_⟩
-      rw [commitTxn_rows, write_none]; rfl
+      show (State.commitC D0 _ _).1.rows = _
+      rw [commitC_rows, write_none]; rfl
   rcases hrows with e | ⟨s, e⟩
   · rw [e]; exact h0
   · rw [e]
     have hsv : SortedV (view D0 s σ.rows) := sorted_view s σ.rows h.core.sinv.sorted
-    rcases planStmt_effs σ.cat σ.clock 0 (view D0 s σ.rows) hsv st with hu | ⟨hni, hnd⟩
+    rcases planStmt_effs none σ.cat σ.clock 0 (view D0 s σ.rows) hsv st with hu | ⟨hni, hnd⟩
     · exact tail_applyEffects_noUpd P s _ σ.rows hu h0
     · exact tail_applyEffects_upd P s _ σ.rows hni hnd (fun r hr => ⟨h0 r hr, fun _ => hP r hr⟩)
 
@@ -243,16 +283,10 @@ theorem auto_lastCommitted (σ : State) (st : Stmt) :
     · rw [hw]; rfl
   split
   · left; exact hs
-  · show ((((σ.beginTxn D0).1.stmt D0 (σ.beginTxn D0).2 0 st).1).commitTxn (σ.beginTxn D0).2).1.lastCommitted = _ ∨ _
-    unfold State.commitTxn
-    split
-    · left; exact hs
-    · split
-      · left; exact hs
-      · show (if (σ.beginTxn D0).2 > _ then (σ.beginTxn D0).2 else _) = _ ∨ (if (σ.beginTxn D0).2 > _ then (σ.beginTxn D0).2 else _) = _
-        rw [hs]
-        split
-        · right; rfl
-        · left; rfl
+  · show (State.commitC D0 ((σ.beginTxn D0).1.stmt D0 (σ.beginTxn D0).2 0 st).1 (σ.beginTxn D0).2).1.lastCommitted = _ ∨
+      (State.commitC D0 ((σ.beginTxn D0).1.stmt D0 (σ.beginTxn D0).2 0 st).1 (σ.beginTxn D0).2).1.lastCommitted = _
+    rcases commitC_lastCommitted ((σ.beginTxn D0).1.stmt D0 (σ.beginTxn D0).2 0 st).1 (σ.beginTxn D0).2 with e | e
+    · left; rw [e]; exact hs
+    · right; rw [e]; rfl
 
 end AxVerif.Db
